@@ -82,6 +82,18 @@ func (p *Queue) Read(b []byte) (int, error) {
 			p.mu.Unlock()
 			return 0, net.ErrClosed
 		}
+		if dlf := p.deadline; dlf != nil {
+			// a deadline that has passed already fails the Read at once, data or not (as the runtime's poller does)
+			p.mu.Unlock()
+			if dl := dlf(); !dl.IsZero() && !time.Now().Before(dl) {
+				return 0, timeoutErr{}
+			}
+			p.mu.Lock()
+			if p.rdDead {
+				p.mu.Unlock()
+				return 0, net.ErrClosed
+			}
+		}
 		if len(p.q) > 0 {
 			n := copy(b, p.q[0])
 			if n == len(p.q[0]) {
